@@ -28,7 +28,7 @@ func (c *LinearSpeedCurve) Evaluate() (value int, err error) {
 	var avgTemp = sensor.GetMovingAvg()
 
 	steps := c.Config.Linear.Steps
-	if steps != nil {
+	if len(steps) > 0 {
 		value = int(math.Round(util.CalculateInterpolatedCurveValue(steps, util.InterpolationTypeLinear, avgTemp/1000)))
 	} else {
 		minTemp := float64(c.Config.Linear.Min) * 1000 // degree to milli-degree
